@@ -86,8 +86,7 @@ MUTANTS = [
         yield dict(zip(keys, combination))
 """)]},
     # ---------------------------------------------------------------- new mutants
-    {"name": "and_does_not_restore_left_eval_parent", "expect": [],
-     "note": "benign in every explored history: _reset_cache_ clears _eval_parent_ anyway",
+    {"name": "and_does_not_restore_left_eval_parent", "expect": ["C05"],
      "edits": [(S, """                finally:
                     self.right._eval_parent_ = right_prev
         finally:
@@ -184,7 +183,7 @@ class OR(""")]},
         if query is not None:
             query.__exit__()
 """)]},
-    {"name": "symbolic_mode_restores_none", "expect": ["C08"],
+    {"name": "symbolic_mode_restores_none", "expect": ["C08"], "tests_pass": False,
      "edits": [(S, """        if query is not None:
             query.__exit__()
         _set_symbolic_mode(prev_mode)
@@ -218,7 +217,8 @@ class OR(""")]},
     {"name": "registry_lookup_exact_type", "expect": ["C14"],
      "edits": [(C, """        cache_keys = [t for t in cache.keys() if isinstance(t, type) and issubclass(t, clazz)]""",
                 """        cache_keys = [t for t in cache.keys() if isinstance(t, type) and (t is clazz or clazz in t.__bases__)]""")]},
-    {"name": "indexed_cache_keys_not_sorted", "expect": ["C20"],
+    {"name": "indexed_cache_keys_not_sorted", "expect": [],
+     "note": "benign: the nesting order is an internal choice no statement constrains; the check must stay silent",
      "edits": [(C, """        self._keys = list(sorted(keys))""", """        self._keys = list(keys)""")]},
     {"name": "indexed_cache_clear_keeps_coverage", "expect": ["C20"],
      "edits": [(C, """    def clear(self):
